@@ -10,7 +10,7 @@ E2E_SIZES = [1, 2, 10, 1000]
 def one(maxlen, backend):
     d = vlib.scratch("rangee2e-")
     try:
-        consts = dict(MaxLen=maxlen, Sizes=set(E2E_SIZES), Toks=inputfam.RANGE_TOKS, UnitPrefixes=inputfam.RANGE_PREFIXES,
+        consts = dict(MaxLen=maxlen, Sizes=set(E2E_SIZES), Toks=inputfam.RANGE_TOKS, UnitPrefixes=inputfam.RANGE_PREFIXES, IfRangeOn=True,
                       CaseFile=os.path.join(d, "cases.ndjson"), ResultFile=os.path.join(d, "res.ndjson"))
         cfg = vlib.cfg_text(consts, spec="Spec")
         r = vlib.tlc_check("RangeGen", cfg, timeout=600, workers=1)
